@@ -243,7 +243,14 @@ class Check:
         if witness: cmd += ['-DWITNESS']
         if h.backend == 'kissat': cmd += ['--external-sat-solver', 'kissat']
         elif h.backend == 'cadical': cmd += ['--sat-solver', 'cadical']
+        elif h.backend == 'cvc5int': cmd += ['--cvc5']      # PATH shim tools/shim/cvc5 adds --solve-bv-as-int=sum (see benv)
         return cmd + list(extra)
+
+    @staticmethod
+    def benv(h):
+        """environment of the cbmc process: the 'cvc5int' back end finds tools/shim/cvc5 (integer encoding of bit-vectors) first on PATH"""
+        if h.backend != 'cvc5int': return None
+        return dict(os.environ, PATH=os.path.join(TOOLS, 'shim') + os.pathsep + os.environ.get('PATH', ''))
 
     def parse_cbmc(s, out):
         props = re.findall(r'^\[([^\]]+)\] (.*): (SUCCESS|FAILURE|UNKNOWN)\s*$', out, re.M)
@@ -255,8 +262,8 @@ class Check:
                'unwind': h.unwind, 'unwindset': h.unwindset, 'backend': h.backend, 'known_applied': [k for k in h.known if k in s.known]}
         from concurrent.futures import ThreadPoolExecutor as _TP
         with _TP(max_workers=2) as ex2:
-            fm = ex2.submit(run, s.cbmc_cmd(info, h, False, ['--slice-formula']), h.timeout, h.mem_gb)
-            fw = ex2.submit(run, s.cbmc_cmd(info, h, True, ['--slice-formula']), h.timeout, h.mem_gb) if h.witness else None
+            fm = ex2.submit(run, s.cbmc_cmd(info, h, False, ['--slice-formula']), h.timeout, h.mem_gb, None, s.benv(h))
+            fw = ex2.submit(run, s.cbmc_cmd(info, h, True, ['--slice-formula']), h.timeout, h.mem_gb, None, s.benv(h)) if h.witness else None
             rc, out, err, dt = fm.result()
             wres = fw.result() if fw else None
         res['wall_s'] = round(dt, 2)
@@ -286,7 +293,7 @@ class Check:
         extra = ['--property', propname, '--trace']
         if '.assertion.' in propname:      # VF_ASSERT / VF_CHK: sliced run keeps the inputs via the checksum (see vf_harness.h)
             extra += ['-DVF_TRACE', '--slice-formula']
-        rc, out, err, dt = run(s.cbmc_cmd(info, h, False, extra), timeout=h.timeout, mem_gb=h.mem_gb)
+        rc, out, err, dt = run(s.cbmc_cmd(info, h, False, extra), timeout=h.timeout, mem_gb=h.mem_gb, env=s.benv(h))
         blocks = out.split('\nTrace for ')
         body = blocks[1] if len(blocks) > 1 else out      # CBMC prints the trace once per reporting section: use the first
         feed = [int(m.group(1)) for m in re.finditer(r'^\s*vf_ndv=(\d+)u?l*\b', body, re.M)]
